@@ -20,6 +20,9 @@ import ASV.Proofs.RotationStages
 import ASV.Proofs.RuleOrder
 import ASV.Model.DetectRecord
 import ASV.Proofs.RotationCandidates
+import ASV.Proofs.RotationRing
+import ASV.Proofs.RotateLoc
+import ASV.Model.Pipeline
 namespace ASV.C07
 open ASV ASV.Rules ASV.Proto ASV.Chains
 
@@ -339,6 +342,324 @@ theorem superior_removal_beyond_cover_witness :
     membership kfBase kfRules = some [("sup", [2])] ∧
     locationContainsOther (.simple ⟨4, 6, .fwd⟩) (.simple ⟨0, 10, .fwd⟩) = false := by
   refine ⟨?_, ?_, ?_⟩ <;> decide +kernel
+
+/-! ## Part 3 — composite statements over the code models on a ring (from C03's and C06's ring theorems) -/
+
+/-- **What "re-indexing" is**: the executable `Rot.rotateLoc` (the transcription of the harness' `rotate_loc`,
+    compared with it and with the real `offset_location` on every generated case) holds exactly the bases
+    of the location rotated by `-k`, for every location with non-empty parts inside the ring — any number
+    of exons, either strand, spanning the old or the new origin — and every cut point. -/
+theorem reindexing_is_a_rotation (l : Loc) (k L : Int) (hL : 0 < L) (hk0 : 0 ≤ k) (hkL : k < L) (hok : l.OK L) :
+    IsRot L (-k) l (Rot.rotateLoc l k L) :=
+  Rot.rotateLoc_isRot l k L hL hk0 hkL hok
+
+/-- **No chain is reported in two pieces, wherever the origin is** (code model of
+    `detect_protoclusters_and_signatures`, end to end through extenders, superiors and both
+    `merge_over_origin` calls; C03 `reported_protoclusters_far_apart_ring` unfolded).  On every circular
+    record — hence on every re-indexing of it — two reported protoclusters of one rule have no two core bases
+    within the rule's cutoff of each other, the shorter way round.  (The seeded change C07_3 — the merged
+    entry of `merge_over_origin` keeps the reach of its first partner only — falsifies exactly this: a chain
+    A–B–C grown by EXTENDERS ends as A+B and C on some origins.) -/
+theorem no_chain_reported_in_two_pieces_any_origin (within : Lookup) (r : Rec) (hcirc : r.circular = true)
+    (hL : 0 < r.len) (rules : List RuleM)
+    (hrules : ∀ name rule, findRule rules name = .ok rule → 0 ≤ rule.cutoff ∧ rule.cutoff ≤ r.len)
+    (hgenes : ∀ g ∈ r.genes, RingIn r.len g.loc) (outs : List Out)
+    (h : detectProtoclusters within r rules = .ok outs) :
+    (outs.map (·.pc)).Pairwise (fun p q => p.rule = q.rule → ∀ rule, findRule rules p.rule = .ok rule →
+      ∀ x y, p.core.mem x = true → q.core.mem y = true → rule.cutoff < ringAbs r.len y x) :=
+  (ASV.C03.reported_protoclusters_far_apart_ring within r hcirc hL rules hrules hgenes outs h).2
+
+/-- **Anchoring genes within the cutoff share a protocluster on every origin** (code model of
+    `find_protoclusters` + `merge_over_origin`, any circular record): if a base of anchoring gene `g` and a
+    base of anchoring gene `h` are within the cutoff of each other (the shorter way round), one merged core
+    covers both genes.  The statement quantifies over the record, so it holds for each re-indexing. -/
+theorem close_anchors_share_protocluster_every_origin (r : Rec) (hcirc : r.circular = true) (hL : 0 < r.len)
+    (rules : List RuleM)
+    (hrules : ∀ name rule, findRule rules name = .ok rule → 0 ≤ rule.cutoff ∧ rule.cutoff ≤ r.len)
+    (rule : RuleM) (hfind : findRule rules rule.name = .ok rule) (anchors : List Gene)
+    (hin : ∀ g ∈ r.genes, anchors.contains g.id = true → RingIn r.len g.loc)
+    (found merged : List PC) (hfound : clustersOfRule r rule anchors = .ok found)
+    (hmerged : Proto.mergeOverOrigin r rules found = .ok merged)
+    (g h : GeneInfo) (hg : g ∈ r.genes) (hh : h ∈ r.genes)
+    (ag : anchors.contains g.id = true) (ah : anchors.contains h.id = true)
+    (x y : Int) (hx : g.loc.mem x = true) (hy : h.loc.mem y = true) (hxy : ringAbs r.len y x ≤ rule.cutoff) :
+    ∃ q ∈ merged, Covers q.core g.loc ∧ Covers q.core h.loc := by
+  obtain ⟨_, hcov, hfar⟩ := ASV.C03.ring_chains_not_split_partial r hcirc hL rules hrules rule hfind anchors hin
+    found merged hfound hmerged
+  obtain ⟨q1, hq1, c1⟩ := hcov g hg ag
+  obtain ⟨q2, hq2, c2⟩ := hcov h hh ah
+  rcases Components.pairwise_mem hfar hq1 hq2 with e | hf | hf
+  · subst e; exact ⟨q1, hq1, c1, c2⟩
+  · exact absurd hf (not_farApart_of_close (c1 x hx) (c2 y hy) hxy)
+  · exact absurd hf (not_farApart_of_close (c2 y hy) (c1 x hx) (by rw [ringAbs_comm]; exact hxy))
+
+/-- **The cores of `find_protoclusters` group the same genes on two origins** — `_partial`: both origins
+    leave the anchoring genes inside an inner arc for the cutoff (`InnerArc`: the cutoff does not reach the
+    origin from any anchor and the arc is at most half the record), i.e. the cut is not within reach of a
+    chain.  Then on both records the cores are, one to one, the hulls of the groups of a chain partition, and
+    the groups of the re-indexed record are exactly the images of the groups of the original record.
+    (Missing for the full statement — cuts through a chain, a core or a gene: that each core of
+    `findCores` + `mergeOverOrigin` is *one* chain on an arbitrary ring, `C03.CoresAreChainsRing`.) -/
+theorem cores_rotation_invariant_inner_partial (r r' : Rec) (hcirc : r.circular = true) (hcirc' : r'.circular = true)
+    (hlen : r'.len = r.len) (c k A B A' B' : Int) (harc : InnerArc r.len c A B) (harc' : InnerArc r.len c A' B')
+    (hA : 0 ≤ A) (hA' : 0 ≤ A') (anchors anchors' : List Loc) (f : Loc → Loc) (hne : anchors ≠ [])
+    (hperm : anchors'.Perm (anchors.map f))
+    (hok : ∀ l ∈ anchors, GeneIn r.len A B l) (hok' : ∀ l ∈ anchors, GeneIn r.len A' B' (f l))
+    (hrot : ∀ l ∈ anchors, IsRot r.len k (spanLoc r.len l) (spanLoc r.len (f l))) :
+    ∃ (groups groups' : List (List Loc)) (cores cores' : List Loc),
+      findCores r c anchors = .ok cores ∧ findCores r' c anchors' = .ok cores' ∧
+      Paired (fun core g => ∃ p, core = Loc.simple p ∧
+        (∀ m ∈ g, p.lo ≤ m.start ∧ m.end ≤ p.hi) ∧ (∃ m ∈ g, m.start = p.lo) ∧ (∃ m ∈ g, m.end = p.hi)) cores groups ∧
+      Paired (fun core g => ∃ p, core = Loc.simple p ∧
+        (∀ m ∈ g, p.lo ≤ m.start ∧ m.end ≤ p.hi) ∧ (∃ m ∈ g, m.start = p.lo) ∧ (∃ m ∈ g, m.end = p.hi)) cores' groups' ∧
+      (∀ g ∈ groups, ∃ g' ∈ groups', ∀ y, y ∈ g' ↔ ∃ x ∈ g, f x = y) ∧
+      (∀ g' ∈ groups', ∃ g ∈ groups, ∀ y, y ∈ g' ↔ ∃ x ∈ g, f x = y) := by
+  have hL : 0 < r.len := by
+    obtain ⟨a, ha⟩ := List.exists_mem_of_ne_nil anchors hne
+    exact harc.Lpos (by have := (hok a ha).lo; have := (hok a ha).hi; have := (hok a ha).ok.start_lt_end; omega)
+  have hne' : anchors' ≠ [] := by
+    intro e
+    rw [e] at hperm
+    exact hne (List.map_eq_nil_iff.1 (List.Perm.eq_nil hperm.symm))
+  have hok2 : ∀ l ∈ anchors', GeneIn r'.len A' B' l := by
+    intro l hl
+    obtain ⟨a, ha, rfl⟩ := List.mem_map.1 (hperm.mem_iff.1 hl)
+    rw [hlen]; exact hok' a ha
+  obtain ⟨groups, cores, hfind, hpart, hpaired⟩ :=
+    ASV.C03.cores_are_chains_ring_partial r hcirc c A B harc hA anchors hne hok
+  obtain ⟨groups', cores', hfind', hpart', hpaired'⟩ :=
+    ASV.C03.cores_are_chains_ring_partial r' hcirc' c A' B' (by rw [hlen]; exact harc') hA' anchors' hne' hok2
+  rw [hlen] at hpart'
+  have hrel : ∀ a ∈ anchors, ∀ b ∈ anchors,
+      (nearB r.len c (f a) (f b) = true ↔ nearB r.len c a b = true) := by
+    intro a ha b hb
+    rw [nearB_rot hL (hok a ha).ok.span_OK (hok b hb).ok.span_OK (hok' a ha).ok.span_OK (hok' b hb).ok.span_OK
+      (hrot a ha) (hrot b hb)]
+  have P := (hpart.map (rel' := fun a b : Loc => nearB r.len c a b = true) f hrel).of_perm hperm.symm
+  refine ⟨groups, groups', cores, cores', hfind, hfind', hpaired, hpaired', ?_, ?_⟩
+  · intro g hg
+    obtain ⟨g', hg', hiff⟩ := chain_partition_unique P hpart' (g.map f) (List.mem_map_of_mem hg)
+    exact ⟨g', hg', fun y => by rw [← hiff y, List.mem_map]⟩
+  · intro g' hg'
+    obtain ⟨gm, hgm, hiff⟩ := chain_partition_unique hpart' P g' hg'
+    obtain ⟨g, hg, rfl⟩ := List.mem_map.1 hgm
+    exact ⟨g, hg, fun y => by rw [hiff y, List.mem_map]⟩
+
+/-- **The protoclusters of a rule (cores and neighbourhoods) on two origins** — `_partial` like the
+    previous theorem, for `clustersOfRule` (cores by the sweep, then `_extend_area_location` and the
+    `Protocluster` constructor): `r'` lists the genes of `r` re-indexed by `fg` (same names, same hits, any
+    order), the anchoring genes of the rule are the same names, and on both records they lie in an inner arc
+    for the cutoff and for the neighbourhood.  Then both records get their protoclusters, each the hull of a
+    group of anchoring genes widened by the neighbourhood on both sides, and the groups of `r'` are exactly
+    the images of the groups of `r`. -/
+theorem protoclusters_rotation_invariant_inner_partial (r r' : Rec) (hcirc : r.circular = true)
+    (hcirc' : r'.circular = true) (hlen : r'.len = r.len) (rule : RuleM) (k A B A' B' : Int)
+    (hc : InnerArc r.len rule.cutoff A B) (hn : InnerArc r.len rule.nbhd A B)
+    (hc' : InnerArc r.len rule.cutoff A' B') (hn' : InnerArc r.len rule.nbhd A' B') (hA : 0 ≤ A) (hA' : 0 ≤ A')
+    (anchors : List Gene) (f : Loc → Loc) (fg : GeneInfo → GeneInfo)
+    (hfg : ∀ g, (fg g).id = g.id ∧ (fg g).loc = f g.loc) (hperm : r'.genes.Perm (r.genes.map fg))
+    (hne : (r.genes.filter fun g => anchors.contains g.id) ≠ [])
+    (hok : ∀ g ∈ r.genes, anchors.contains g.id = true → GeneIn r.len A B g.loc ∧ GeneIn r.len A' B' (f g.loc))
+    (hrot : ∀ g ∈ r.genes, anchors.contains g.id = true → IsRot r.len k (spanLoc r.len g.loc) (spanLoc r.len (f g.loc))) :
+    ∃ (groups groups' : List (List Loc)) (pcs pcs' : List PC),
+      clustersOfRule r rule anchors = .ok pcs ∧ clustersOfRule r' rule anchors = .ok pcs' ∧
+      Paired (fun pc g => pc.rule = rule.name ∧ ∃ p, pc.core = Loc.simple p ∧
+        (∀ m ∈ g, p.lo ≤ m.start ∧ m.end ≤ p.hi) ∧ (∃ m ∈ g, m.start = p.lo) ∧ (∃ m ∈ g, m.end = p.hi) ∧
+        pc.loc = Loc.simple ⟨p.lo - rule.nbhd, p.hi + rule.nbhd, .fwd⟩) pcs groups ∧
+      Paired (fun pc g => pc.rule = rule.name ∧ ∃ p, pc.core = Loc.simple p ∧
+        (∀ m ∈ g, p.lo ≤ m.start ∧ m.end ≤ p.hi) ∧ (∃ m ∈ g, m.start = p.lo) ∧ (∃ m ∈ g, m.end = p.hi) ∧
+        pc.loc = Loc.simple ⟨p.lo - rule.nbhd, p.hi + rule.nbhd, .fwd⟩) pcs' groups' ∧
+      (∀ g ∈ groups, ∃ g' ∈ groups', ∀ y, y ∈ g' ↔ ∃ x ∈ g, f x = y) ∧
+      (∀ g' ∈ groups', ∃ g ∈ groups, ∀ y, y ∈ g' ↔ ∃ x ∈ g, f x = y) := by
+  -- the anchoring genes of r', as locations, are a rearrangement of the images of those of r
+  have hfilter : (r'.genes.filter fun g => anchors.contains g.id).Perm
+      ((r.genes.filter fun g => anchors.contains g.id).map fg) := by
+    have h1 := hperm.filter (fun g => anchors.contains g.id)
+    have h2 : (r.genes.map fg).filter (fun g => anchors.contains g.id) =
+        (r.genes.filter fun g => anchors.contains g.id).map fg := by
+      rw [List.filter_map]
+      congr 1
+      apply List.filter_congr
+      intro g _
+      simp only [Function.comp, (hfg g).1]
+    rw [h2] at h1
+    exact h1
+  have hlocs : ((r'.genes.filter fun g => anchors.contains g.id).map (·.loc)).Perm
+      (((r.genes.filter fun g => anchors.contains g.id).map (·.loc)).map f) := by
+    have h1 := hfilter.map (·.loc)
+    have e : ((r.genes.filter fun g => anchors.contains g.id).map fg).map (·.loc) =
+        ((r.genes.filter fun g => anchors.contains g.id).map (·.loc)).map f := by
+      simp only [List.map_map]
+      apply List.map_congr_left
+      intro g _
+      simp only [Function.comp, (hfg g).2]
+    rw [e] at h1
+    exact h1
+  have hne' : (r'.genes.filter fun g => anchors.contains g.id) ≠ [] := by
+    intro e
+    rw [e] at hfilter
+    exact hne (List.map_eq_nil_iff.1 (List.Perm.eq_nil hfilter.symm))
+  have hok2 : ∀ g ∈ r'.genes, anchors.contains g.id = true → GeneIn r'.len A' B' g.loc := by
+    intro g hg ha
+    obtain ⟨g0, hg0, rfl⟩ := List.mem_map.1 (hperm.mem_iff.1 hg)
+    rw [(hfg g0).1] at ha
+    rw [(hfg g0).2, hlen]
+    exact (hok g0 hg0 ha).2
+  obtain ⟨groups, pcs, h1, hpart, hp1⟩ := ASV.C03.protoclusters_of_rule_ring_partial r hcirc rule A B hc hn hA anchors hne
+    (fun g hg ha => (hok g hg ha).1)
+  obtain ⟨groups', pcs', h2, hpart', hp2⟩ := ASV.C03.protoclusters_of_rule_ring_partial r' hcirc' rule A' B'
+    (by rw [hlen]; exact hc') (by rw [hlen]; exact hn') hA' anchors hne' hok2
+  rw [hlen] at hpart'
+  have hL : 0 < r.len := by
+    obtain ⟨a, ha⟩ := List.exists_mem_of_ne_nil _ hne
+    obtain ⟨hag, hac⟩ := List.mem_filter.1 ha
+    have hh := (hok a hag hac).1
+    exact hc.Lpos (by have := hh.lo; have := hh.hi; have := hh.ok.start_lt_end; omega)
+  have hmemloc : ∀ l ∈ (r.genes.filter fun g => anchors.contains g.id).map (·.loc),
+      GeneIn r.len A B l ∧ GeneIn r.len A' B' (f l) ∧ IsRot r.len k (spanLoc r.len l) (spanLoc r.len (f l)) := by
+    intro l hl
+    obtain ⟨g, hg, rfl⟩ := List.mem_map.1 hl
+    obtain ⟨hgg, hga⟩ := List.mem_filter.1 hg
+    exact ⟨(hok g hgg hga).1, (hok g hgg hga).2, hrot g hgg hga⟩
+  have hrel : ∀ a ∈ (r.genes.filter fun g => anchors.contains g.id).map (·.loc),
+      ∀ b ∈ (r.genes.filter fun g => anchors.contains g.id).map (·.loc),
+      (nearB r.len rule.cutoff (f a) (f b) = true ↔ nearB r.len rule.cutoff a b = true) := by
+    intro a ha b hb
+    obtain ⟨a1, a2, a3⟩ := hmemloc a ha
+    obtain ⟨b1, b2, b3⟩ := hmemloc b hb
+    rw [nearB_rot hL a1.ok.span_OK b1.ok.span_OK a2.ok.span_OK b2.ok.span_OK a3 b3]
+  have P := (hpart.map (rel' := fun a b : Loc => nearB r.len rule.cutoff a b = true) f hrel).of_perm hlocs.symm
+  refine ⟨groups, groups', pcs, pcs', h1, h2, hp1, ?_, ?_, ?_⟩
+  · exact hp2
+  · intro g hg
+    obtain ⟨g', hg', hiff⟩ := chain_partition_unique P hpart' (g.map f) (List.mem_map_of_mem hg)
+    exact ⟨g', hg', fun y => by rw [← hiff y, List.mem_map]⟩
+  · intro g' hg'
+    obtain ⟨gm, hgm, hiff⟩ := chain_partition_unique hpart' P g' hg'
+    obtain ⟨g, hg, rfl⟩ := List.mem_map.1 hgm
+    exact ⟨g, hg, fun y => by rw [hiff y, List.mem_map]⟩
+
+open ASV.Regions in
+/-- **`create_regions` groups the same areas on two origins** — `_partial`: on neither origin does a
+    candidate cluster or subregion span the origin (`NoSpanOK`; C06 `regions_are_components_no_origin_span`).
+    Then region creation succeeds on both records, each region is the hull of one group of areas, and every
+    group of the original record reappears on the re-indexed record with exactly the same area ids.
+    (With origin-spanning areas C06 proves "components are never split" and "a region is the shortest cover
+    of what it lists", not yet "a region lists one component only"; the harness compares the regions.) -/
+theorem regions_rotation_invariant_no_origin_span_partial (s t : State) (hs : NoSpanOK s) (ht : NoSpanOK t)
+    (L k : Int) (hL : 0 < L) (hsl : s.len = L) (f : Components.Area → Components.Area)
+    (hid : ∀ a, (f a).1 = a.1) (hperm : (areasOf t).Perm ((areasOf s).map f))
+    (hrot : ∀ a ∈ areasOf s, IsRot L k a.2 (f a).2) :
+    ∃ (s' t' : State) (gs gt : List (List Feat)), createRegions s = .ok s' ∧ createRegions t = .ok t' ∧
+      s'.regions.map view = gs.map expectedRegion ∧ t'.regions.map view = gt.map expectedRegion ∧
+      ∀ g ∈ gs, ∃ g' ∈ gt, ∀ i, i ∈ g'.map (·.id) ↔ i ∈ g.map (·.id) := by
+  obtain ⟨s', gs, h1, _, _, _, hc1, hv1, _⟩ := ASV.C06.regions_are_components_no_origin_span s hs
+  obtain ⟨t', gt, h2, _, _, _, hc2, hv2, _⟩ := ASV.C06.regions_are_components_no_origin_span t ht
+  have hok : ∀ a ∈ areasOf s, a.2.OK L := by
+    intro a ha
+    simp only [areasOf, List.mem_map] at ha
+    obtain ⟨x, hx, rfl⟩ := ha
+    obtain ⟨p, hp, h0, h1', h2'⟩ := hs.areas x hx
+    simp only [toArea, hp]
+    refine ⟨by simp [Loc.parts], ?_⟩
+    intro q hq
+    simp only [Loc.parts, List.mem_singleton] at hq
+    subst hq
+    exact ⟨h0, h1', fun _ => by omega⟩
+  have key := region_components_rotation_invariant_spec L k hL (areasOf s) (areasOf t) f _ _ hc1 hc2 hperm hok hrot
+  refine ⟨s', t', gs, gt, h1, h2, hv1, hv2, ?_⟩
+  intro g hg
+  obtain ⟨g'a, hg'a, hiff⟩ := key (g.map toArea) (List.mem_map_of_mem hg)
+  obtain ⟨g', hg', rfl⟩ := List.mem_map.1 hg'a
+  refine ⟨g', hg', fun i => ?_⟩
+  simp only [List.mem_map]
+  constructor
+  · rintro ⟨x, hx, rfl⟩
+    obtain ⟨a, ha, e⟩ := (hiff (toArea x)).1 (List.mem_map_of_mem hx)
+    obtain ⟨y, hy, rfl⟩ := List.mem_map.1 ha
+    refine ⟨y, hy, ?_⟩
+    have := congrArg Prod.fst e
+    rw [hid] at this
+    exact this
+  · rintro ⟨y, hy, rfl⟩
+    have hm : f (toArea y) ∈ g'.map toArea := (hiff _).2 ⟨toArea y, List.mem_map_of_mem hy, rfl⟩
+    obtain ⟨x, hx, e⟩ := List.mem_map.1 hm
+    refine ⟨x, hx, ?_⟩
+    have := congrArg Prod.fst e
+    rw [hid] at this
+    exact this
+
+/-! ## Part 4 — the pipeline end to end (`Pipe.run` = C03's detection ∘ C05's formation ∘ C06's regions) -/
+
+theorem pipe_run_ok {r : Rec} {rules : List RuleM} {res : Pipe.Result} (h : Pipe.run r rules = .ok res) :
+    detectProtoclusters (withinReal r) r rules = .ok res.outs ∧
+    CC.formation (Pipe.toProtos r res.outs) r.wrap = .ok res.cands ∧ res.protos = Pipe.toProtos r res.outs := by
+  simp only [Pipe.run, bind, Except.bind] at h
+  cases h1 : detectProtoclusters (withinReal r) r rules with
+  | error e => simp [h1] at h
+  | ok outs =>
+    simp only [h1] at h
+    cases h2 : CC.formation (Pipe.toProtos r outs) r.wrap with
+    | error e => simp [h2] at h
+    | ok cands =>
+      simp only [h2] at h
+      split at h
+      · cases h
+      · simp only [pure, Except.pure, Except.ok.injEq] at h
+        subst h
+        exact ⟨rfl, h2, rfl⟩
+
+/-- **Whatever the origin, the pipeline's result is sound in the two respects that do not need the ring
+    refinement**: whenever the whole pipeline (detection, candidate formation, region creation) returns on a
+    circular record, (1) no chain is reported in pieces — two protoclusters of one rule are further apart
+    than its cutoff — and (2) every reported protocluster is a member of at least one candidate cluster. -/
+theorem pipeline_result_sound_on_every_origin (r : Rec) (hcirc : r.circular = true) (hL : 0 < r.len)
+    (rules : List RuleM)
+    (hrules : ∀ name rule, findRule rules name = .ok rule → 0 ≤ rule.cutoff ∧ rule.cutoff ≤ r.len)
+    (hgenes : ∀ g ∈ r.genes, RingIn r.len g.loc) (res : Pipe.Result) (h : Pipe.run r rules = .ok res) :
+    (res.outs.map (·.pc)).Pairwise (fun p q => p.rule = q.rule → ∀ rule, findRule rules p.rule = .ok rule →
+      ∀ x y, p.core.mem x = true → q.core.mem y = true → rule.cutoff < ringAbs r.len y x) ∧
+    CC.Spec.coversAll res.protos res.cands = true := by
+  obtain ⟨h1, h2, h3⟩ := pipe_run_ok h
+  refine ⟨no_chain_reported_in_two_pieces_any_origin (withinReal r) r hcirc hL rules hrules hgenes res.outs h1, ?_⟩
+  rw [h3]
+  exact ASV.C05.every_protocluster_in_a_candidate _ _ _ h2
+
+/-! ### the layout of the seeded change C07_3: a chain A – e1 – B – e2 – C that exists only through EXTENDERS -/
+
+def chainRules : List RuleM :=
+  [⟨"R", 5000, 3000, .group false [.single false "pA"], [], some (.single false "pE")⟩,
+   ⟨"Q", 5000, 3000, .group false [.single false "pQ"], [], none⟩]
+/-- ring of 100 kb; anchors A, B, C 8 kb apart (cutoff 5 kb), extender genes e1, e2 between them -/
+def chainRec : Rec := ⟨100000, true,
+  [⟨0, .simple ⟨10000, 11000, .fwd⟩, [("pA", 0)], true⟩, ⟨1, .simple ⟨14000, 15000, .fwd⟩, [("pE", 0)], true⟩,
+   ⟨2, .simple ⟨19000, 20000, .rev⟩, [("pA", 0)], true⟩, ⟨3, .simple ⟨23000, 24000, .fwd⟩, [("pE", 0)], true⟩,
+   ⟨4, .simple ⟨28000, 29000, .fwd⟩, [("pA", 0)], true⟩, ⟨5, .simple ⟨60000, 61000, .rev⟩, [("pQ", 0)], true⟩]⟩
+/-- the same record with base 21000 (between B and e2) as origin, genes in the new record order -/
+def chainRecCut : Rec := ⟨100000, true,
+  [⟨3, Rot.rotateLoc (.simple ⟨23000, 24000, .fwd⟩) 21000 100000, [("pE", 0)], true⟩,
+   ⟨4, Rot.rotateLoc (.simple ⟨28000, 29000, .fwd⟩) 21000 100000, [("pA", 0)], true⟩,
+   ⟨5, Rot.rotateLoc (.simple ⟨60000, 61000, .rev⟩) 21000 100000, [("pQ", 0)], true⟩,
+   ⟨0, Rot.rotateLoc (.simple ⟨10000, 11000, .fwd⟩) 21000 100000, [("pA", 0)], true⟩,
+   ⟨1, Rot.rotateLoc (.simple ⟨14000, 15000, .fwd⟩) 21000 100000, [("pE", 0)], true⟩,
+   ⟨2, Rot.rotateLoc (.simple ⟨19000, 20000, .rev⟩) 21000 100000, [("pA", 0)], true⟩]⟩
+
+/-- non-vacuity of `no_chain_reported_in_two_pieces_any_origin` and of the extender path through
+    `merge_over_origin`: the three extended cores A+e1, e1+B+e2, e2+C are merged into one protocluster on
+    the original origin and with the origin inside the chain (the merged core then spans the origin) -/
+theorem extender_chain_is_one_protocluster_on_both_origins :
+    membership chainRec chainRules = some [("R", [0, 1, 2, 3, 4]), ("Q", [5])] ∧
+    membership chainRecCut chainRules = some [("R", [0, 1, 2, 3, 4]), ("Q", [5])] := by
+  constructor <;> decide +kernel
+
+/-- … and the whole pipeline returns on both origins with one candidate cluster per protocluster and the
+    same two regions (by member genes) -/
+example : ((Pipe.run chainRec chainRules).toOption.map fun res =>
+      (res.cands.map (·.members.map (·.product)), res.regions.map fun x => Pipe.genesIn chainRec x.1)) =
+    some ([["R"], ["Q"]], [[0, 1, 2, 3, 4], [5]]) := by decide +kernel
+example : ((Pipe.run chainRecCut chainRules).toOption.map fun res =>
+      (res.cands.map (·.members.map (·.product)), res.regions.map fun x => Pipe.genesIn chainRecCut x.1)) =
+    some ([["R"], ["Q"]], [[3, 4, 0, 1, 2], [5]]) := by decide +kernel
 
 /-! ### non-vacuity -/
 
